@@ -587,6 +587,8 @@ func c09Fixed(cfg Config, res *Result) {
 		// a loop written in a block of a child template runs inside the base template's loop: nesting is decided at execution
 		{`{% extends "lbase.tpl" %}{% block row %}{% for x in l %}{{ forloop.Parentloop.Counter }}.{{ forloop.Counter }}/{{ forloop.Parentloop.Revcounter0 }}{% if forloop.Parentloop.Last %}L{% endif %} {% endfor %}{% endblock %}`, "1.1/1 1.2/1 2.1/0L 2.2/0L |"},
 		{`{% extends "lbase.tpl" %}{% block solo %}{% for x in l %}{% if forloop.Parentloop %}P{% else %}-{% endif %}{% endfor %}{% endblock %}`, "--|--"},
+		// loop variables may bear any name, a lone underscore included
+		{"{% for _ in l %}*{% endfor %}|{% for _item in l reversed %}{{ _item }}{% endfor %}|{% for _k, v in m sorted %}{{ _k }}={{ v }};{% endfor %}", "**|87|a=1;b=2;"},
 		// firstof picks the first true argument with autoescaping off as well
 		{"{% autoescape off %}{% firstof 0 half 7 %}|{% firstof nosuch \"\" 0 %}|{% firstof 0 \"\" \"x\" %}|{% firstof nl 0.0 tiny half %}{% endautoescape %}", "0.500000||x|0.001000"},
 		{"{% autoescape off %}{% for x in dup %}{% firstof 0 x %}{% endfor %}{% endautoescape %}", "11222"},
